@@ -219,6 +219,14 @@ def gen_cases(seed, tier):
             for tol in (False, True):
                 cases.append(mk_case({'sub': 7, 'ctx': ctx, 's': s, 'tolerant': tol, 'psv': 1 if rnd.random() < 0.15 else 0,
                                       'origin': 'args', 'v': {'a': a, 'noopt': rnd.random() < 0.3, 'amm': amm}}))
+    # whitespace other than blank / tab / CR / LF in front of an optional argument (str.isspace is the notion of
+    # whitespace of the tokenizer and of both arguments parsers), with and without optional_arg_no_space
+    for ws in ('\x0c', '\x0b', '\x1c', '\x85', '\xa0', '\u2003', '\u3000', ' \x0c', '\t'):
+        for a, s in (('{[', '{a}' + ws + '[b]c'), ('*[{', '*' + ws + '[o]' + ws + '{m}'), ('[{', ws + '[o]{m}'), ('[', ws + '[o] x')):
+            for noopt in (True, False):
+                for tol in (False, True):
+                    cases.append(mk_case({'sub': 7, 'ctx': 'default', 's': s, 'tolerant': tol, 'psv': 0, 'origin': 'args-unicode-space',
+                                          'v': {'a': a, 'noopt': noopt, 'amm': None}}))
     cases.append(mk_case({'sub': 7, 'ctx': 'default', 's': 'x', 'tolerant': False, 'psv': 0, 'origin': 'args',
                           'v': {'a': '{{', 'noopt': False, 'amm': [None]}}))          # ValueError
     # spellings
